@@ -49,6 +49,13 @@ type skelWalker struct {
 	params  map[string]bool
 	imports map[string]bool
 	toks    []string
+	// closures: local function variables, numbered in definition order (their names are free)
+	closures map[string]string
+	// helpers: unexported methods of the same receiver type declared in the file that are not in
+	// the opaque set; a call of one is replaced by its body (an "extract helper" refactoring does
+	// not move the skeleton)
+	helpers map[string]*ast.FuncDecl
+	depth   int
 }
 
 // normSel prints a selector/index chain rooted at the receiver with the index expressions elided
@@ -82,6 +89,11 @@ func (w *skelWalker) callee(fun ast.Expr) string {
 	s := exprString(fun)
 	sel, ok := fun.(*ast.SelectorExpr)
 	if !ok {
+		if id, isId := fun.(*ast.Ident); isId {
+			if n, isCl := w.closures[id.Name]; isCl {
+				return n
+			}
+		}
 		return s
 	}
 	root := sel.X
@@ -234,6 +246,32 @@ func (w *skelWalker) calls(n ast.Node) {
 				w.calls(sel.X)
 			}
 			name := w.callee(e.Fun)
+			if hd, ok := w.helpers[name]; ok && w.depth < 2 {
+				w.inline(hd)
+				return false
+			}
+			if name == "maps.Copy" && len(e.Args) == 2 {
+				// maps.Copy(dst, src) is the loop `for k, v := range src { dst[k] = v }`
+				src := exprString(e.Args[1])
+				if n, ok := w.normSel(e.Args[1]); ok {
+					src = n
+				}
+				w.emit(fmt.Sprintf(".loop %s []", leanStrList([]string{"range", src})))
+				if n, ok := w.normSel(e.Args[0]); ok {
+					w.emit(fmt.Sprintf(".set %q", n+"[]"))
+				}
+				w.emit(".done")
+				return false
+			}
+			if name == "clear" && len(e.Args) == 1 {
+				if n, ok := w.normSel(e.Args[0]); ok && !strings.HasSuffix(n, "]") {
+					// clear(m) of a receiver's map field is the loop `for k := range m { delete(m, k) }`
+					w.emit(fmt.Sprintf(".loop %s []", leanStrList([]string{"range", n})))
+					w.emit(fmt.Sprintf(".call \"delete\" %s", leanStrList([]string{n})))
+					w.emit(".done")
+					return false
+				}
+			}
 			if name == "panic" {
 				w.emit(".panic")
 			} else if name == "delete" || name == "clear" {
@@ -311,6 +349,17 @@ func (w *skelWalker) stmt(s ast.Stmt) {
 		u, o := w.uses(st.Cond)
 		w.emit(fmt.Sprintf(".ifc %s %s", leanStrList(u), leanStrList(o)))
 		w.block(st.Body)
+		if st.Else != nil && terminates(st.Body) {
+			// `if c { …; return } else { rest }` and `if c { …; return }; rest` are the same
+			// program: canonical form is the second
+			w.emit(".done")
+			if eb, ok := st.Else.(*ast.BlockStmt); ok {
+				w.block(eb)
+			} else {
+				w.stmt(st.Else)
+			}
+			return
+		}
 		if st.Else != nil {
 			w.emit(".els")
 			w.stmt(st.Else)
@@ -362,6 +411,16 @@ func (w *skelWalker) stmt(s ast.Stmt) {
 			w.emit(".brk")
 		}
 	case *ast.AssignStmt:
+		if len(st.Lhs) == 1 && len(st.Rhs) == 1 {
+			if id, ok := st.Lhs[0].(*ast.Ident); ok {
+				if _, isFn := st.Rhs[0].(*ast.FuncLit); isFn {
+					if w.closures == nil {
+						w.closures = map[string]string{}
+					}
+					w.closures[id.Name] = fmt.Sprintf("closure%d", len(w.closures)+1)
+				}
+			}
+		}
 		for _, r := range st.Rhs {
 			w.calls(r)
 			w.reads(r)
@@ -402,6 +461,55 @@ func (w *skelWalker) stmt(s ast.Stmt) {
 	default:
 		w.emit(fmt.Sprintf(".call %q []", fmt.Sprintf("?%T", s)))
 	}
+}
+
+// inline emits the body of an extracted helper in place of its call: its receiver is renamed to
+// the caller's, a trailing return is dropped.
+func (w *skelWalker) inline(hd *ast.FuncDecl) {
+	sub := &skelWalker{params: map[string]bool{}, imports: w.imports, helpers: w.helpers, depth: w.depth + 1}
+	if hd.Recv != nil && len(hd.Recv.List) == 1 && len(hd.Recv.List[0].Names) == 1 {
+		sub.self = hd.Recv.List[0].Names[0].Name
+	}
+	sub.block(hd.Body)
+	toks := sub.toks
+	if n := len(toks); n > 0 && strings.HasPrefix(toks[n-1], ".ret") {
+		toks = toks[:n-1]
+	}
+	for _, t := range toks {
+		if sub.self != "" && sub.self != w.self {
+			t = strings.ReplaceAll(t, "\""+sub.self+".", "\""+w.self+".")
+		}
+		w.emit(t)
+	}
+}
+
+// terminates reports whether control never falls out of the end of the block (its last statement
+// is a return, break, continue, goto or a call of panic).
+func terminates(b *ast.BlockStmt) bool {
+	if b == nil || len(b.List) == 0 {
+		return false
+	}
+	switch st := b.List[len(b.List)-1].(type) {
+	case *ast.ReturnStmt, *ast.BranchStmt:
+		return true
+	case *ast.ExprStmt:
+		if c, ok := st.X.(*ast.CallExpr); ok {
+			if id, ok := c.Fun.(*ast.Ident); ok && id.Name == "panic" {
+				return true
+			}
+		}
+	case *ast.IfStmt:
+		if st.Else == nil {
+			return false
+		}
+		if eb, ok := st.Else.(*ast.BlockStmt); ok {
+			return terminates(st.Body) && terminates(eb)
+		}
+		if ei, ok := st.Else.(*ast.IfStmt); ok {
+			return terminates(st.Body) && terminates(&ast.BlockStmt{List: []ast.Stmt{ei}})
+		}
+	}
+	return false
 }
 
 func (w *skelWalker) block(b *ast.BlockStmt) {
@@ -476,6 +584,7 @@ func genChainSkel(repo string) ([]byte, error) {
 		if fd.Recv != nil && len(fd.Recv.List) == 1 && len(fd.Recv.List[0].Names) == 1 {
 			w.self = fd.Recv.List[0].Names[0].Name
 		}
+		w.helpers = helpersFor(f, knownManagerFuncs, recvType(fd), w.self)
 		for _, im := range f.Imports {
 			p := strings.Trim(im.Path.Value, "\"")
 			n := p[strings.LastIndex(p, "/")+1:]
@@ -582,6 +691,7 @@ func genDBSkel(repo string) ([]byte, error) {
 		if fd.Recv != nil && len(fd.Recv.List[0].Names) == 1 {
 			w.self = fd.Recv.List[0].Names[0].Name
 		}
+		w.helpers = helpersFor(f, knownDBFuncs, recvType(fd), w.self)
 		for _, im := range f.Imports {
 			p := strings.Trim(im.Path.Value, "\"")
 			n := p[strings.LastIndex(p, "/")+1:]
@@ -612,4 +722,40 @@ func genDBSkel(repo string) ([]byte, error) {
 	}
 	b.WriteString("end Verif.Extracted\n")
 	return []byte(b.String()), nil
+}
+
+
+// ---- helper inlining: the functions of each file as of the pinned tree are OPAQUE (a call of one
+// is a token); a function that is not in these sets was introduced later — typically by an
+// "extract helper" refactoring — and a call of it is replaced by its body.
+
+var knownManagerFuncs = map[string]bool{"blockAndParent": true, "Manager.TipState": true, "Manager.Tip": true, "Manager.Block": true, "Manager.State": true, "Manager.BestIndex": true, "Manager.MinReorgIndex": true, "Manager.History": true, "Manager.Headers": true, "Manager.BlocksForHistory": true, "Manager.AddBlocks": true, "Manager.AddValidatedV2Blocks": true, "Manager.overwriteExpirations": true, "Manager.revertTip": true, "Manager.applyTip": true, "Manager.reorgPath": true, "Manager.reorgTo": true, "Manager.PruneBlocks": true, "Manager.UpdatesSince": true, "Manager.OnReorg": true, "Manager.OnPoolChange": true, "Manager.revalidatePool": true, "Manager.computeMedianFee": true, "Manager.computeParentMap": true, "updateTxnProofs": true, "checkFileContractRevisions": true, "checkEphemeralOutputs": true, "Manager.revertPoolUpdate": true, "Manager.applyPoolUpdate": true, "Manager.PoolTransaction": true, "Manager.PoolTransactions": true, "Manager.V2PoolTransaction": true, "Manager.V2PoolTransactions": true, "Manager.TransactionsForPartialBlock": true, "Manager.RecommendedFee": true, "Manager.UnconfirmedParents": true, "Manager.V2TransactionSet": true, "Manager.checkTxnSet": true, "Manager.updateV2TransactionProofs": true, "Manager.AddPoolTransactions": true, "Manager.UpdateV2TransactionSet": true, "Manager.AddV2PoolTransactions": true, "NewManager": true}
+
+var knownDBFuncs = map[string]bool{"supplementedBlock.EncodeTo": true, "supplementedBlock.DecodeFrom": true, "versionedState.EncodeTo": true, "versionedState.DecodeFrom": true, "MemDB.Flush": true, "MemDB.Cancel": true, "MemDB.get": true, "MemDB.put": true, "MemDB.delete": true, "MemDB.Bucket": true, "MemDB.CreateBucket": true, "memBucket.Get": true, "memBucket.Put": true, "memBucket.Delete": true, "memBucket.Iter": true, "NewMemDB": true, "cacheBucket.Get": true, "cacheBucket.Put": true, "cacheBucket.Delete": true, "cacheBucket.Iter": true, "CacheDB.Bucket": true, "CacheDB.CreateBucket": true, "CacheDB.Flush": true, "CacheDB.Cancel": true, "NewCacheDB": true, "check": true, "dbBucket.getRaw": true, "dbBucket.get": true, "dbBucket.putRaw": true, "dbBucket.put": true, "dbBucket.delete": true, "DBStore.bucket": true, "DBStore.encHeight": true, "DBStore.putBestIndex": true, "DBStore.deleteBestIndex": true, "DBStore.getHeight": true, "DBStore.putHeight": true, "DBStore.getState": true, "DBStore.putState": true, "DBStore.getBlock": true, "DBStore.putBlock": true, "DBStore.getAncestorInfo": true, "DBStore.getBlockHeader": true, "DBStore.treeKey": true, "DBStore.getElementProof": true, "DBStore.getSiacoinElement": true, "DBStore.putSiacoinElement": true, "DBStore.deleteSiacoinElement": true, "DBStore.getSiafundElement": true, "DBStore.putSiafundElement": true, "DBStore.deleteSiafundElement": true, "DBStore.getFileContractElement": true, "DBStore.putFileContractElement": true, "DBStore.deleteFileContractElement": true, "DBStore.putFileContractExpiration": true, "DBStore.ExpiringFileContractIDs": true, "DBStore.OverwriteExpiringFileContractIDs": true, "DBStore.deleteFileContractExpiration": true, "DBStore.applyState": true, "DBStore.revertState": true, "DBStore.applyElements": true, "DBStore.revertElements": true, "DBStore.BestIndex": true, "DBStore.SupplementTipTransaction": true, "DBStore.SupplementTipBlock": true, "DBStore.AncestorTimestamp": true, "DBStore.State": true, "DBStore.AddState": true, "DBStore.Block": true, "DBStore.AddBlock": true, "DBStore.PruneBlock": true, "DBStore.Header": true, "DBStore.shouldFlush": true, "DBStore.ApplyBlock": true, "DBStore.RevertBlock": true, "DBStore.Flush": true, "NewDBStore": true, "NewDBStoreAtCheckpoint": true}
+
+// helpersFor lists the inlinable functions of f for a caller whose receiver variable is self and
+// receiver type recv: unexported methods of the same receiver type and unexported plain functions
+// that are not in the known set.
+func helpersFor(f *ast.File, known map[string]bool, recv, self string) map[string]*ast.FuncDecl {
+	out := map[string]*ast.FuncDecl{}
+	for _, d := range f.Decls {
+		fd, ok := d.(*ast.FuncDecl)
+		if !ok || fd.Body == nil || ast.IsExported(fd.Name.Name) {
+			continue
+		}
+		rt := recvType(fd)
+		full := fd.Name.Name
+		if rt != "" {
+			full = rt + "." + full
+		}
+		if known[full] {
+			continue
+		}
+		if rt == "" {
+			out[fd.Name.Name] = fd
+		} else if rt == recv && self != "" {
+			out[self+"."+fd.Name.Name] = fd
+		}
+	}
+	return out
 }
